@@ -825,39 +825,39 @@ done:
 			if (di & descentFlag) == 0 {
 				switch tv := prev.(type) {
 				case map[string]any:
-					// Put prev back and slide fi.
-					stack[len(stack)-1] = prev
-					stack = append(stack, di|descentFlag)
+					// Put prev back under a frame of its own; the frame it came with
+					// may still serve siblings below it.
+					stack = append(stack, prev, di|descentFlag)
 					for _, v = range tv {
 						stack = descentAddValue(stack, v, fi)
 					}
 				case []any:
-					// Put prev back and slide fi.
-					stack[len(stack)-1] = prev
-					stack = append(stack, di|descentFlag)
+					// Put prev back under a frame of its own; the frame it came with
+					// may still serve siblings below it.
+					stack = append(stack, prev, di|descentFlag)
 					for i := len(tv) - 1; 0 <= i; i-- {
 						stack = descentAddValue(stack, tv[i], fi)
 					}
 				case Keyed:
-					// Put prev back and slide fi.
-					stack[len(stack)-1] = prev
-					stack = append(stack, di|descentFlag)
+					// Put prev back under a frame of its own; the frame it came with
+					// may still serve siblings below it.
+					stack = append(stack, prev, di|descentFlag)
 					for _, k := range tv.Keys() {
 						v, _ = tv.ValueForKey(k)
 						stack = descentAddValue(stack, v, fi)
 					}
 				case Indexed:
-					// Put prev back and slide fi.
-					stack[len(stack)-1] = prev
-					stack = append(stack, di|descentFlag)
+					// Put prev back under a frame of its own; the frame it came with
+					// may still serve siblings below it.
+					stack = append(stack, prev, di|descentFlag)
 					size := tv.Size()
 					for i := size - 1; 0 <= i; i-- {
 						stack = descentAddValue(stack, tv.ValueAtIndex(i), fi)
 					}
 				case gen.Object:
-					// Put prev back and slide fi.
-					stack[len(stack)-1] = prev
-					stack = append(stack, di|descentFlag)
+					// Put prev back under a frame of its own; the frame it came with
+					// may still serve siblings below it.
+					stack = append(stack, prev, di|descentFlag)
 					for _, v = range tv {
 						switch v.(type) {
 						case map[string]any, []any, gen.Object, gen.Array, Keyed, Indexed:
@@ -866,9 +866,9 @@ done:
 						}
 					}
 				case gen.Array:
-					// Put prev back and slide fi.
-					stack[len(stack)-1] = prev
-					stack = append(stack, di|descentFlag)
+					// Put prev back under a frame of its own; the frame it came with
+					// may still serve siblings below it.
+					stack = append(stack, prev, di|descentFlag)
 					for i := len(tv) - 1; 0 <= i; i-- {
 						v = tv[i]
 						switch v.(type) {
